@@ -375,6 +375,12 @@ func addImport(f *ast.File, name, path string) {
 	spec := &ast.ImportSpec{Name: ast.NewIdent(name), Path: &ast.BasicLit{Kind: token.STRING, Value: strconv.Quote(path)}}
 	for _, d := range f.Decls {
 		if gd, ok := d.(*ast.GenDecl); ok && gd.Tok == token.IMPORT {
+			// the new spec takes the end position of the last one: without a position go/printer
+			// emits a comment that follows the import block in the middle of the new spec
+			if n := len(gd.Specs); n > 0 {
+				pos := gd.Specs[n-1].End()
+				spec.Name.NamePos, spec.Path.ValuePos = pos, pos
+			}
 			gd.Specs = append(gd.Specs, spec)
 			if !gd.Lparen.IsValid() {
 				gd.Lparen = gd.Pos()
